@@ -58,16 +58,61 @@ class Recorder(ExtractCallback):
         self._rec("post")
 
 
+def with_extras(data, model, folder_of, extras, work):
+    """append one more session holding stream-less members and links: a symlink to a file, a symlink to a directory, an empty
+    file, a directory.  Returns fresh (bytes, model, folder_of); a link's content is its target text."""
+    src = os.path.join(work, "src", "x")
+    os.makedirs(src)
+    model, folder_of = dict(model), dict(folder_of)
+    nf = 1 + max(folder_of.values())
+    added = {}
+    for kind in extras:
+        if kind == "link":  # py7zr only archives links whose target exists
+            with open(os.path.join(src, "t.bin"), "wb") as f:
+                f.write(b"link target " * 9)
+            added["x/t.bin"] = b"link target " * 9
+            os.symlink("t.bin", os.path.join(src, "l1"))
+            added["x/l1"] = b"t.bin"
+        elif kind == "linkdir":
+            os.mkdir(os.path.join(src, "td"))
+            added["x/td"] = b""
+            os.symlink("../x/td", os.path.join(src, "l2"))
+            added["x/l2"] = b"../x/td"
+        elif kind == "empty":
+            open(os.path.join(src, "e0"), "wb").close()
+            added["x/e0"] = b""
+        elif kind == "dir":
+            os.mkdir(os.path.join(src, "d0"))
+            added["x/d0"] = b""
+    bio = io.BytesIO(data)
+    with py7zr.SevenZipFile(bio, "a") as z:
+        z.set_encoded_header_mode(False)
+        z.writeall(src, arcname="x")
+    with py7zr.SevenZipFile(io.BytesIO(bio.getvalue())) as z:
+        names = z.getnames()
+    model["x"] = b""
+    for n in names:
+        if n in added:
+            model[n] = added[n]
+            folder_of[n] = nf
+    if set(names) != set(model):
+        raise HarnessError("extras: unexpected member list %r" % (sorted(set(names) ^ set(model)),))
+    model = {n: model[n] for n in names}
+    return bio.getvalue(), model, folder_of
+
+
 class C18(Check):
     property_id = "C18"
     level = "exploration"
     technique = "recording ExtractCallback with instantaneous, slow and gate-blocked handlers (released only after close() has been entered) under the harness scheduler for worker threads; event-log oracle computed from the member map, the target set and the folder partition"
     rule = ("archive = 1..4 folders x 1..3 members (C13 builder; chunk limit patched to 48..200 bytes so that members are decoded in several "
-            "steps) x extractall / extract(T) with skipped members and skipped folders x output to a directory or a gated WriterFactory x opened "
+            "steps), optionally followed by an appended session with a symlink to a file, a symlink to a directory, an empty file and a directory "
+            "x extractall / extract(T) with skipped members and skipped folders x output to a directory or a gated WriterFactory x opened "
             "by path (worker threads, scheduled at thread start and at every factory create/write) or from a stream x handlers instantaneous, "
             "sleeping 1 ms, or one invocation parked until 30 ms after close() was entered. Oracle: first event pre, last event post; every "
             "start(name) is followed later by exactly one end(name, n) with int(n) = the member's size, names are member names, every delivered "
-            "member has such a pair; the update byte counts sum to the sizes of the delivered non-empty members; when close() returns the log "
+            "member has such a pair; the update byte counts sum to the sizes of the delivered non-empty members (a link's size is the length of "
+            "its target text); when close() returns the log "
             "is complete and unchanged 100 ms later. Non-trivial: >= 2 folders or a skipped member, and a blocking/slow handler or a "
             "schedule with a switch; distinct by (archive shape, targets, output, open mode, handler mode, schedule).")
     assumptions = ["one extraction per session", "handler delays total far below close()'s 1 s join timeout", "same scheduling granularity limits as C13"]
@@ -83,7 +128,8 @@ class C18(Check):
         return st.fixed_dictionaries({"arch": spec, "targets": st.one_of(st.none(), st.lists(st.integers(0, 11), min_size=1, max_size=5, unique=True)),
                                       "out": st.sampled_from(["factory", "path"]), "open": st.sampled_from(["path", "path", "stream"]),
                                       "handler": st.sampled_from(["instant", "slow", "block", "block"]), "block_at": st.integers(0, 12),
-                                      "chunk": st.sampled_from([48, 100, 200, None]), "sched": st.lists(st.integers(0, 3), max_size=30)})
+                                      "chunk": st.sampled_from([48, 100, 200, None]), "sched": st.lists(st.integers(0, 3), max_size=30),
+                                      "extras": st.one_of(st.just([]), st.lists(st.sampled_from(["link", "linkdir", "empty", "dir"]), max_size=4, unique=True))})
 
     def examples(self, env):
         return env.n(110, 3000)
@@ -99,29 +145,37 @@ class C18(Check):
                         i += 1
                         if env.mine(i):
                             yield {"arch": sp, "targets": targets, "out": out, "open": "path" if i % 3 else "stream", "handler": handler, "block_at": i % 7,
-                                   "chunk": 64, "sched": [i % 3, 1, 0, 2, 1]}
+                                   "chunk": 64, "sched": [i % 3, 1, 0, 2, 1], "extras": [[], ["link", "empty"], ["linkdir", "dir", "link"], ["empty", "dir"]][i % 4]}
 
     def execute(self, case, env):
         out = Outcome()
         data, model, folder_of, ranges = build(case["arch"])
+        env.state["k"] += 1
+        work = os.path.join(env.scratch, "c18-%d" % env.state["k"])
+        os.makedirs(work)
+        extras = list(case.get("extras") or [])
+        try:
+            if extras:
+                data, model, folder_of = with_extras(data, model, folder_of, extras, work)
+        except BaseException:
+            shutil.rmtree(work, ignore_errors=True)
+            raise
         names = list(model)
         T = None
         if case["targets"] is not None:
             T = sorted({names[i % len(names)] for i in case["targets"]})
         delivered = names if T is None else T
-        env.state["k"] += 1
-        work = os.path.join(env.scratch, "c18-%d" % env.state["k"])
-        os.makedirs(work)
         apath = os.path.join(work, "a.7z")
         with open(apath, "wb") as f:
             f.write(data)
-        nf = len(ranges)
+        nf = len(ranges) + (1 if any(k in extras for k in ("link", "linkdir")) else 0)
         skipped = T is not None and len(T) < len(names)
-        out.descriptor = (repr(case["arch"]), tuple(T) if T else None, case["out"], case["open"], case["handler"], case["block_at"], case["chunk"], tuple(case["sched"]))
+        out.descriptor = (repr(case["arch"]), tuple(T) if T else None, case["out"], case["open"], case["handler"], case["block_at"], case["chunk"], tuple(case["sched"]), tuple(extras))
+        out.label(*["extra:" + k for k in extras])
         out.label("folders=%d" % nf, "out:" + case["out"], "open:" + case["open"], "handler:" + case["handler"], "targets" if T else "all")
         out.nontrivial = (nf >= 2 or skipped) and (case["handler"] != "instant" or (case["open"] == "path" and nf >= 2))
-        out.sample = {"arch": case["arch"], "targets": T, "out": case["out"], "open": case["open"], "handler": case["handler"], "chunk": case["chunk"]}
-        sig = {"out": case["out"], "open": case["open"], "handler": case["handler"], "targets": T is not None, "multi": nf >= 2}
+        out.sample = {"arch": case["arch"], "targets": T, "out": case["out"], "open": case["open"], "handler": case["handler"], "chunk": case["chunk"], "extras": extras}
+        sig = {"out": case["out"], "open": case["open"], "handler": case["handler"], "targets": T is not None, "multi": nf >= 2, "extras": bool(extras)}
         cb = Recorder(block_at=case["block_at"] if case["handler"] == "block" else None, slow=0.001 if case["handler"] == "slow" else 0.0)
         import py7zr.py7zr as pp
 
